@@ -176,6 +176,13 @@ def linear_candidates(rng, m):
     return c
 
 
+def parity(M):
+    """the fermion parity (-1)^N = prod_i (1 - 2 n_i) as a polynomial in the occupation numbers: an integral of motion of EVERY model here
+    (all terms have an even number of operators) that is NOT linear in the n_i; c and c^+ flip it, so each still has one target block"""
+    import itertools
+    return [[(-2) ** k, 1, list(S)] for k in range(M + 1) for S in itertools.combinations(range(M), k)]
+
+
 def rename(m, mapping):
     """the same model with site labels renamed (labels occur in sites, preset arguments and term operators)"""
     def ren(x):
